@@ -1193,7 +1193,8 @@ static void DecodeRET(Word Code) {
         }
 
         ClearAdrVals(&AdrVals);
-        if (EncodeDisplacement(
+        if (EvalResult.OK
+            && EncodeDisplacement(
                     Value, &AdrVals,
                     mFirstPassUnknownOrQuestionable(EvalResult.Flags) ? ErrNum_None
                                                                       : ErrNum_OverRange,
@@ -1217,7 +1218,8 @@ static void DecodeCXP(Word Code) {
         tAdrVals AdrVals;
 
         ClearAdrVals(&AdrVals);
-        if (EncodeDisplacement(
+        if (EvalResult.OK
+            && EncodeDisplacement(
                     Value, &AdrVals,
                     mFirstPassUnknownOrQuestionable(EvalResult.Flags) ? ErrNum_None
                                                                       : ErrNum_OverRange,
@@ -1244,11 +1246,12 @@ static void DecodeENTER(Word Code) {
         tAdrVals AdrVals;
 
         ClearAdrVals(&AdrVals);
-        if (EncodeDisplacement(
+        if (EvalResult.OK
+            && EncodeDisplacement(
                     Value, &AdrVals,
                     mFirstPassUnknownOrQuestionable(EvalResult.Flags) ? ErrNum_None
                                                                       : ErrNum_OverRange,
-                    &ArgStr[1])) {
+                    &ArgStr[2])) {
             PutCode(Code, 1);
             BAsmCode[CodeLen++] = RegList;
             AppendDisp(&AdrVals);
